@@ -8,7 +8,7 @@ from .common import Oracle, Suite, hx, merge
 from .common import errname as _errname
 from .formats_common import cps
 
-GEN_UNITS = ["ShaCrypt", "B64", "Handlers", "PyUnicode"]
+GEN_UNITS = ["ShaCrypt", "B64", "Handlers", "PyUnicode", "FormatDigests", "FormatParsers"]
 LEAN_TARGETS = ["PasslibVerif.Props.C01", "PasslibVerif.Props.C01Crypt"]
 ASSUMPTIONS = [
     "that two secrets which differ outside a format's documented equivalences have different checksums is collision resistance of the digest primitives — not a theorem; "
